@@ -3,6 +3,8 @@ package main
 import (
 	"fmt"
 	"math/rand"
+	"net/http"
+	"net/http/httptest"
 	"sort"
 	"strconv"
 	"strings"
@@ -21,7 +23,7 @@ func u64s(xs []uint64) string {
 
 func init() {
 	checks["C18"] = func(rep *Report, tier string, seed int64) {
-		rep.Rule = "bucket/lzcnt grid: every bucket bound -1/0/+1, every power of two -1/0/+1, 0..300, random 64-bit values: real getBucket / lzcnt (hook H2) vs the regenerated Lean definitions, plus monotonicity and upper-bound oracle on the real function; histogram periods: random multisets (sizes 1..40000, sampled and unsampled, consecutive periods so that recycled rings are stale, values of all magnitudes) through the real ObserveHist/extract/percentiles vs the Lean period model, plus count/membership/min-max oracle; counters: concurrent increments from 2..32 goroutines vs the sum; distinct = distinct (period length class, sampled) + distinct grid values"
+		rep.Rule = "bucket/lzcnt grid: every bucket bound -1/0/+1, every power of two -1/0/+1, 0..300, random 64-bit values: real getBucket / lzcnt (hook H2) vs the regenerated Lean definitions, plus monotonicity and upper-bound oracle on the real function; histogram periods: random multisets (sizes 1..40000, sampled and unsampled, consecutive periods so that recycled rings are stale, values of all magnitudes) through the real ObserveHist/extract/percentiles vs the Lean period model, plus count/membership/min-max oracle; counters: concurrent increments from 2..32 goroutines vs the sum; distinct = distinct (period length class, sampled) + distinct grid values; the /metrics HTTP handler itself is called and the lines it prints for a counter incremented past 2^63 and a histogram period {5, 2^63} are compared with those values (unsigned decimals)"
 		d := StartDriver()
 		defer d.Close()
 		r := rand.New(rand.NewSource(seed))
@@ -222,6 +224,55 @@ func init() {
 				viol(fmt.Sprintf("counter reports %d after increments summing to %d from %d goroutines", got, want, g), "counter-sum", map[string]interface{}{"goroutines": g})
 			}
 			rep.Evaluations++
+		}
+		// what the /metrics endpoint PRINTS is what the registry holds: every value as an unsigned
+		// decimal, also above 2^63 (a counter that wrapped into the upper half, a huge observation)
+		{
+			cname := fmt.Sprintf("verif_bigctr_%d", seed)
+			cid := metrics.AddCounter(cname, nil)
+			metrics.IncCounterBy(cid, 1<<62)
+			metrics.IncCounterBy(cid, 1<<62)
+			metrics.IncCounterBy(cid, 12345)
+			hname := fmt.Sprintf("verif_bighist_%d", seed)
+			hid := metrics.AddHistogram(hname, false, nil)
+			metrics.ObserveHist(hid, 5)
+			metrics.ObserveHist(hid, 1<<63)
+			rec := httptest.NewRecorder()
+			http.DefaultServeMux.ServeHTTP(rec, httptest.NewRequest("GET", "/metrics", nil))
+			printed := map[string][]string{}
+			for _, line := range strings.Split(rec.Body.String(), "\n") {
+				f := strings.Fields(line)
+				if len(f) == 2 && (strings.Contains(f[0], cname) || strings.Contains(f[0], hname)) {
+					printed[f[0]] = append(printed[f[0]], f[1])
+				}
+			}
+			rep.Evaluations++
+			rep.Distribution["endpoint-lines-checked"] = len(printed)
+			wantCtr := fmt.Sprint(uint64(1<<63 + 12345))
+			okCtr, sawMax := false, false
+			for name, vals := range printed {
+				for _, v := range vals {
+					if strings.HasPrefix(v, "-") {
+						viol(fmt.Sprintf("/metrics prints %s as %s: a negative number for an unsigned metric", name, v), "endpoint-negative", map[string]interface{}{"line": name + " " + v})
+					}
+					if strings.Contains(name, cname) && v == wantCtr {
+						okCtr = true
+					}
+					if strings.Contains(name, hname) && v == fmt.Sprint(uint64(1<<63)) {
+						sawMax = true
+					}
+				}
+			}
+			if len(printed) == 0 {
+				viol("/metrics printed no line for the metrics registered by the check", "endpoint-missing", nil)
+			} else {
+				if !okCtr {
+					viol(fmt.Sprintf("/metrics does not print the counter incremented by 2^62 + 2^62 + 12345 as %s", wantCtr), "endpoint-counter", map[string]interface{}{"printed": printed})
+				}
+				if !sawMax {
+					viol("/metrics prints no statistic of the histogram period {5, 2^63} as 9223372036854775808 (its maximum)", "endpoint-histogram", map[string]interface{}{"printed": printed})
+				}
+			}
 		}
 		if len(rep.Samples) == 0 {
 			rep.Samples = append(rep.Samples, map[string]interface{}{"grid_value_examples": sorted[:minInt(10, len(sorted))]})
